@@ -1,0 +1,16 @@
+//go:build verif
+
+package whip
+
+// Machine-checked contracts for /verif (govc). Comment-only: compiled only with -tags verif, adds no code.
+
+// C34: reading a quoted credential never indexes outside the text, consumes through the closing quote only, and
+// fails on anything else. (That it inverts quoteCredential for every string is checked bounded, see
+// /verif/bounded/c34_linkheader_test.go: the induction over the escape automaton is out of the solvers' reach.)
+
+//@ func readQuotedCredential
+//@   property C34
+//@   loop 1 invariant 1 <= i && i <= len(v)
+//@   ensures [needs-opening-quote] (len(v) == 0 || v[0] != '"') ==> !result2
+//@   ensures [rest-is-a-suffix-after-a-quote] result2 ==> exists(k, 1, len(v), v[k] == '"' && result1 == v[k+1:])
+//@   ensures [failure-returns-nothing] !result2 ==> result0 == "" && result1 == ""
